@@ -164,8 +164,39 @@ fn sim_test(v: &Value, _: Kwargs, _: &State) -> bool {
     v.is_string()
 }
 
+thread_local! {
+    static ESCAPE_CALLS: Cell<u64> = const { Cell::new(0) };
+    static ESCAPE_FAIL_AT: Cell<Option<u64>> = const { Cell::new(None) };
+    static ESCAPE_FIRED: Cell<bool> = const { Cell::new(false) };
+}
+
+/// The user-supplied escape function is a fault seam of its own: it returns `io::Result` and may
+/// fail (the engine must turn that into an error value, never a panic).
+pub fn escape_calls_reset() {
+    ESCAPE_CALLS.with(|c| c.set(0));
+    ESCAPE_FIRED.with(|c| c.set(false));
+}
+pub fn escape_calls() -> u64 {
+    ESCAPE_CALLS.with(|c| c.get())
+}
+pub fn set_escape_fault(at: Option<u64>) {
+    ESCAPE_FAIL_AT.with(|c| c.set(at));
+}
+pub fn escape_fault_fired() -> bool {
+    ESCAPE_FIRED.with(|c| c.get())
+}
+
 fn sim_escape(input: &str, out: &mut dyn std::io::Write) -> std::io::Result<()> {
     cb();
+    let n = ESCAPE_CALLS.with(|c| {
+        let n = c.get();
+        c.set(n + 1);
+        n
+    });
+    if ESCAPE_FAIL_AT.with(|c| c.get()) == Some(n) {
+        ESCAPE_FIRED.with(|c| c.set(true));
+        return Err(std::io::Error::new(std::io::ErrorKind::InvalidData, "terasim: injected escape-fn failure"));
+    }
     tera::escape_html(input, out)
 }
 
